@@ -348,7 +348,11 @@ func (o *Object) NextElementBytes(dst *Iter) (name []byte, t Type, err error) {
 	case TagObjectEnd:
 		return nil, TypeNone, nil
 	case TagNop:
-		o.off += int(v & JSONVALUEMASK)
+		skip := int(v & JSONVALUEMASK)
+		if skip <= 0 {
+			return nil, TypeNone, errors.New("object: invalid nop skip")
+		}
+		o.off += skip
 		return o.NextElementBytes(dst)
 	default:
 		return nil, TypeNone, fmt.Errorf("object: unexpected tag %c", byte(v>>56))
@@ -367,6 +371,9 @@ func (o *Object) NextElementBytes(dst *Iter) (name []byte, t Type, err error) {
 	dst.calcNext(false)
 	elemSize := dst.addNext
 	dst.calcNext(true)
+	if elemSize < 0 {
+		return nil, TypeNone, errors.New("element has negative offset")
+	}
 	if dst.off+elemSize > len(dst.tape.Tape) {
 		return nil, TypeNone, errors.New("element extends beyond tape")
 	}
